@@ -907,7 +907,40 @@ pub fn gen_inline_case(rng: &mut Rng, max_lines: usize) -> TextCase {
         let nwords = 1 + rng.usize(6);
         let words = iline(rng, nwords);
         let term = iterm(rng);
-        match rng.weighted(&[3, 6, 1, 1, 1]) {
+        match rng.weighted(&[3, 6, 1, 1, 1, 2]) {
+            5 => {
+                // a block of 3..=6 lines against ONE line made of the head of
+                // the first and the tail of the last of them (or the other
+                // way round): the word-level diff then has a single run that
+                // covers whole lines in the middle
+                let k = 3 + rng.usize(4);
+                let mut lines: Vec<Vec<String>> = Vec::new();
+                for j in 0..k {
+                    // short middle lines keep the similarity gates open
+                    let nw = if j == 0 || j + 1 == k { 2 + rng.usize(4) } else { 1 + rng.usize(2) };
+                    lines.push((0..nw).map(|t| format!("{}{}", IWORDS[rng.usize(IWORDS.len())], j * 7 + t)).collect());
+                }
+                let mut joined: Vec<String> = lines[0].clone();
+                let last = &lines[k - 1];
+                let keep = 1 + rng.usize(last.len());
+                joined.extend(last[last.len() - keep..].iter().cloned());
+                let many: Vec<String> = lines
+                    .iter()
+                    .map(|ws| {
+                        let t = iterm(rng);
+                        render_iline(rng, ws, t)
+                    })
+                    .collect();
+                let t = iterm(rng);
+                let one = render_iline(rng, &joined, t);
+                if rng.chance(1, 2) {
+                    old.extend(many);
+                    new.push(one);
+                } else {
+                    old.push(one);
+                    new.extend(many);
+                }
+            }
             0 => {
                 // unchanged line
                 let l = render_iline(rng, &words, term);
